@@ -32,7 +32,8 @@ CHECKS["C01"] = dict(
 REG_NOTE = TRUST + "; time is the process clock in whole milliseconds (all members and clients live in one process)"
 CHECKS["C07"] = dict(
     text="Concurrent Incr/Decr/IncrByFloat/GetPut histories from callers spread over every entry path are accepted by TLC iff they are linearizable "
-         "with respect to Register.tla's counter / swap semantics (no lost update, GetPut results form one chain, final Get = sum).",
+         "with respect to Register.tla's counter / swap semantics (no lost update, GetPut results form one chain, final Get = sum; a key that sees integer and fractional "
+         "operations: an integer operation on a number with a fraction is refused and changes nothing).",
     ref="DESIGN.md 5.2, 8 (C07)", note=REG_NOTE,
     technique="TLC trace validation (linearizability search) of real concurrent histories against Register.tla")
 CHECKS["C08"] = dict(
@@ -70,7 +71,9 @@ CHECKS["C14"] = dict(
     text="PubSub.tla is the abstract subscription set with written-out glob matching; TLC explores every subscription state within the bound and exports "
          "one operation path per state plus every short path; the Go driver replays them on a real two-member cluster over raw RESP connections, probes "
          "with PUBLISH through both members and the PUBSUB introspection commands, reads every connection up to a PING barrier, and TLC (PubSubTrace.tla) "
-         "checks counts, exact deliveries, duplicates, introspection and per-publisher order under concurrent publishers.",
+         "checks counts, exact deliveries, duplicates, introspection and per-publisher order under concurrent publishers.  PubSubImpl.tla models one member's service at the "
+         "grain of its reader/writer lock (writes under the read lock; writing after the lock was released must violate NoMessageAfterAck); that counterexample's schedule - "
+         "an UNSUBSCRIBE while a publication is under way - is forced on a real member by a subscriber that stops reading.",
     ref="DESIGN.md 5.5, 8 (C14)",
     technique="TLC model checking of PubSub.tla + replay of TLC-exported paths on the real cluster + TLC trace validation (PubSubTrace.tla)")
 
@@ -88,7 +91,8 @@ CHECKS["C12"] = dict(
          "pattern; (2) Iterator.tla models the client iterator (working copy of owners, cursors, de-duplication, periodic routing-table refresh, Go slice aliasing) and TLC "
          "checks ExactlyOnce/termination; every initial state x refresh position is exported and rebuilt on a real cluster whose partitions have a previous owner, and "
          "iterated; (3) complete iterations (both client iterators, raw DM.SCAN walks of every fragment) on real clusters after inserts, churn, compaction and during "
-         "hand-over; TLC (ScanTrace.tla) compares yielded and present keys.",
+         "hand-over; TLC (ScanTrace.tla) compares yielded and present keys; (4) iterations whose pages alternate with compaction, writes and deletes - cursor walks on the real "
+         "engine inside the programs (KVStoreTrace WBegin/WEnd) and client iterators / DM.SCAN walks on real clusters (ScanTrace BusyScan): every key present all the time is yielded.",
     ref="DESIGN.md 5.1, 5.5, 8 (C12)",
     technique="TLC model checking of KVStore.tla and Iterator.tla + replay of TLC-exported layouts/scenarios on real code + TLC trace validation")
 
@@ -125,7 +129,9 @@ CHECKS["C18"] = dict(
 CHECKS["C19"] = dict(
     text="Isolation.tla: per-DMap abstract maps over two DMaps whose name+key concatenations collide; TLC checks that an operation changes only the DMap it names and exports "
          "one operation path per distinct state. The driver replays them and random sequences (Incr, GetPut, Lock, Expire, Destroy through three client kinds) on clusters "
-         "N in 1..3, R in 1..2 and after every operation reads both DMaps completely: every key, a full scan, every member's primary and backup fragments (white box).",
+         "N in 1..3, R in 1..2 and after every operation reads both DMaps completely: every key, a full scan, every member's primary and backup fragments (white box).  "
+         "FragLife.tla models the life of a fragment slot (creation on demand, the janitor, Destroy without the fragment lock); its counterexample for the code as found "
+         "(map entry removed by name) is forced on a real member with a gate: a Put acknowledged after a completed Destroy must stay readable.",
     ref="DESIGN.md 5.5, 8 (C19)",
     technique="TLC model checking of Isolation.tla + replay of TLC-exported paths + TLC trace validation of complete read-backs (IsolationTrace.tla)")
 
